@@ -338,4 +338,93 @@ theorem allLoop_ok {L : Layout} (hL : L.Valid) {f : Bytes} : ∀ (cs : List Byte
       · rw [e6] at h7; exact h7
       · rw [e8, e5]
 
+
+theorem take_split (a b : Bytes) (n : Nat) (h : a.length ≤ n) : (a ++ b).take n = a ++ b.take (n - a.length) := by
+  rw [List.take_append, List.take_of_length_le h]
+
+/-- `z'` is `z` moved forward by `m` bytes inside the same record -/
+structure Adv (z z' : Z) (m : Nat) : Prop where
+  stR : z'.stR = z.stR
+  rrs : z'.rrs = z.rrs
+  chunks : z'.pre ++ z'.c :: z'.cs = z.pre ++ z.c :: z.cs
+  off : z'.pre.flatten.length + z'.j = z.pre.flatten.length + z.j + m
+
+/-- the sized loop: reads/skips `min (size - br) (what is left of the record)` bytes and stays inside the record -/
+theorem sizedLoop_ok {L : Layout} (hL : L.Valid) {f : Bytes} : ∀ (cs : List Bytes) (z : Z) (s : Rd) (acc : Acc)
+    (fuel br size : Nat), z.cs = cs → CInside L f z s → cs.length < fuel → br ≤ size →
+    ∃ s' z', sizedLoop f fuel s acc br size = .ok (s', acc.app ((z.c.drop z.j ++ cs.flatten).take (size - br)))
+      ∧ CInside L f z' s' ∧ Adv z z' (min (size - br) (z.c.length - z.j + cs.flatten.length))
+      ∧ s'.startOfLr = s.startOfLr := by
+  intro cs
+  induction cs with
+  | nil =>
+    intro z s acc fuel br size hcs h hf hbr
+    have hjle := h.jle
+    cases fuel with
+    | zero => simp at hf
+    | succ k =>
+      unfold sizedLoop
+      by_cases hlt : br < size
+      · rw [if_pos hlt, h.ldLen, h.ldIndex]
+        by_cases hin : size - br ≤ z.c.length - z.j
+        · rw [if_pos hin]
+          obtain ⟨e1, h1⟩ := advanceZ h acc (size - br) hin
+          refine ⟨_, _, e1.trans ?_, h1, ⟨rfl, rfl, rfl, ?_⟩, rfl⟩
+          · simp
+          · simp only [List.flatten_nil, List.length_nil, Nat.add_zero]; omega
+        · rw [if_neg hin]
+          obtain ⟨e1, h1⟩ := advanceZ h acc (z.c.length - z.j) (Nat.le_refl _)
+          have hsucc := succ_of_inside h1
+          simp only [hcs, List.isEmpty_nil, Bool.not_true] at hsucc
+          simp only [e1, hsucc, Bool.false_eq_true, if_false]
+          refine ⟨_, _, ?_, h1, ⟨rfl, rfl, rfl, ?_⟩, rfl⟩
+          · rw [List.take_of_length_le (by rw [List.length_drop]; omega)]
+            rw [List.take_of_length_le (by simp [List.length_drop]; omega)]
+            simp
+          · simp only [List.flatten_nil, List.length_nil, Nat.add_zero]; omega
+      · rw [if_neg hlt]
+        have : size - br = 0 := by omega
+        refine ⟨s, z, ?_, h, ⟨rfl, rfl, rfl, ?_⟩, rfl⟩
+        · rw [this]; simp [Acc.app_nil]
+        · rw [this]; simp
+  | cons c2 cs2 ih =>
+    intro z s acc fuel br size hcs h hf hbr
+    have hjle := h.jle
+    cases fuel with
+    | zero => simp at hf
+    | succ k =>
+      unfold sizedLoop
+      by_cases hlt : br < size
+      · rw [if_pos hlt, h.ldLen, h.ldIndex]
+        by_cases hin : size - br ≤ z.c.length - z.j
+        · rw [if_pos hin]
+          obtain ⟨e1, h1⟩ := advanceZ h acc (size - br) hin
+          refine ⟨_, _, e1.trans ?_, h1, ⟨rfl, rfl, rfl, ?_⟩, rfl⟩
+          · rw [List.take_append_of_le_length (by rw [List.length_drop]; omega)]
+          · simp only []; omega
+        · rw [if_neg hin]
+          obtain ⟨e1, h1⟩ := advanceZ h acc (z.c.length - z.j) (Nat.le_refl _)
+          have hsucc := succ_of_inside h1
+          simp only [hcs, List.isEmpty_cons, Bool.not_false] at hsucc
+          obtain ⟨s2, s3, e2, e3, e4, h3, e5, e6⟩ := nextChunk hL (z := { z with j := z.j + (z.c.length - z.j) }) h1
+            (by simp only []; omega) c2 cs2 hcs
+          obtain ⟨s', z', e7, h7, a7, e8⟩ := ih ⟨z.stR, z.pre ++ [z.c], c2, cs2, 0, z.rrs⟩ s3
+            (acc.app ((z.c.drop z.j).take (z.c.length - z.j))) k (br + (z.c.length - z.j)) size rfl h3
+            (by simpa using hf) (by omega)
+          simp only [e1, hsucc, if_true, e2, e4]
+          refine ⟨s', z', e7.trans ?_, h7, ⟨a7.stR, a7.rrs, ?_, ?_⟩, by rw [e8, e5]⟩
+          · rw [List.take_of_length_le (by rw [List.length_drop]; omega), Acc.app_app]
+            rw [take_split (z.c.drop z.j) ((c2 :: cs2).flatten) (size - br) (by rw [List.length_drop]; omega)]
+            simp only [List.drop_zero, List.flatten_cons, List.length_drop, Nat.sub_add_eq]
+          · rw [a7.chunks, hcs]; simp
+          · have := a7.off
+            simp only [List.flatten_append, List.length_append, List.flatten_cons, List.flatten_nil,
+              List.append_nil, List.length_nil, Nat.add_zero, Nat.sub_zero] at this ⊢
+            omega
+      · rw [if_neg hlt]
+        have : size - br = 0 := by omega
+        refine ⟨s, z, ?_, h, ⟨rfl, rfl, rfl, ?_⟩, rfl⟩
+        · rw [this]; simp [Acc.app_nil]
+        · rw [this]; simp
+
 end TD.C05
